@@ -410,12 +410,24 @@ def rule_update_formulas(repo, rep):
                                  ('t', 'g', 'avg', 'ada', 'gamma', 'delta',
                                   'beta'))
   one = Rat.const(1)
+  tmp_env = {}
   scal = {'iter': 't', 'grad_w': 'g', 'avg_grad_w': 'avg',
           'ada_grad_w': 'ada', 'self.gamma': 'gamma', 'delta': 'delta',
           'self.beta': 'beta'}
+  # scalar temporaries of the loop body (e.g. step = iter + 1)
+  for s_ in loops[0].body:
+    if isinstance(s_, ast.Assign) and len(s_.targets) == 1 and \
+            isinstance(s_.targets[0], ast.Name) and \
+            s_.targets[0].id not in scal and \
+            s_.targets[0].id not in ('w', 'idx', 'slack_val', 'slack_mask'):
+      tv = eval_expr(s_.value, scal, {})
+      names_ = set(x.id for x in ast.walk(s_.value)
+                   if isinstance(x, ast.Name))
+      if isinstance(tv, Rat) and names_ <= {'iter'}:
+        tmp_env[s_.targets[0].id] = tv
   checks = []
   if 'avg_grad_w' in stm:
-    v = eval_expr(stm['avg_grad_w'].value, scal, {})
+    v = eval_expr(stm['avg_grad_w'].value, scal, {}, tmp_env)
     checks.append(('avg_grad_w', v, (t * avg + g) / (t + one)))
   if 'ada_grad_w' in stm:
     e = stm['ada_grad_w'].value
@@ -426,7 +438,7 @@ def rule_update_formulas(repo, rep):
       v = eval_expr(e.args[0], scal, {}, env)
     checks.append(('ada_grad_w^2', v, ada * ada + g * g))
   if 'scale_f' in stm:
-    v = eval_expr(stm['scale_f'].value, scal, {})
+    v = eval_expr(stm['scale_f'].value, scal, {}, tmp_env)
     checks.append(('scale_f', v, Rat.const(-1) * (t + one) /
                    (gam * (dl + ada))))
   for name, v, want in checks:
@@ -460,7 +472,7 @@ def rule_update_formulas(repo, rep):
         if ast.unparse(sc[0]) == 'scale_f' and 'scale_f' in stm:
           sc_ok = True
         else:
-          sv = eval_expr(sc[0], scal, {})
+          sv = eval_expr(sc[0], scal, {}, tmp_env)
           if isinstance(sv, Rat):
             sc_ok = sv == Rat.const(-1) * (t + one) / (gam * (dl + ada))
       if len(sc) == 1 and len(tr) == 1 and sc_ok is not None:
@@ -491,7 +503,7 @@ def rule_update_formulas(repo, rep):
     gexp = astutil.unfold(stm['grad_w'].value, body_, stm['grad_w'],
                           stop=('w', 'dist_diff', 'idx', 'avg_grad_w',
                                 'ada_grad_w'))
-    got = ast.unparse(gexp)
+    got = ast.unparse(gexp).replace('rand_int[iter]', 'idx')
     margins = ('1 + np.matmul(dist_diff[idx, :], w.T)',
                '1 + dist_diff[idx, :].dot(w.T)',
                'np.matmul(dist_diff[idx, :], w.T) + 1',
@@ -509,6 +521,10 @@ def rule_update_formulas(repo, rep):
                 'np.sum(dist_diff[idx, :][%s], axis=0, keepdims=True) / '
                 'self.batch_size' % m,
                 'np.sum(dist_diff[idx][%s], axis=0, keepdims=True) / '
+                'self.batch_size' % m,
+                'np.sum(dist_diff[idx, :][%s, :], axis=0, keepdims=True) / '
+                'self.batch_size' % m,
+                'np.sum(dist_diff[idx][%s, :], axis=0, keepdims=True) / '
                 'self.batch_size' % m]
     if got in wants:
       rep.derived(R, 'scml._BaseSCML._fit:grad_w', site(f, stm['grad_w']))
